@@ -21,7 +21,7 @@ RULE = ("EXHAUSTIVE over all (edition, variation) pairs of reporters-db that use
 ASSUMPTIONS = ["independent key of a case citation = (class, volume, page, guessed-edition-or-written reporter)",
                "variations whose guessed edition differs from (or is missing next to) the canonical one's are "
                "ambiguous in the database and only checked against the independent key"]
-FLOORS = {"quick": {"db_pairs": 2100, "custom_template_pairs": 80, "cross_template_pairs": 15, "db_pairs_unambiguous": 1500, "db_pairs_unambiguous_by_database": 1200, "roundtrips": 1200, "pools": 80,
+FLOORS = {"quick": {"db_pairs": 2100, "custom_template_pairs": 80, "cross_template_pairs": 15, "db_pairs_unambiguous": 1500, "db_pairs_unambiguous_by_database": 1200, "roundtrips": 4800, "roundtrip_page:leading_zero": 1000, "roundtrip_page:long": 1000, "pools": 80,
                     "pool_pairs": 100000, "pool_equal_pairs": 300, "placeholder_objects": 50,
                     "cross_kind_pairs": 20000, "nominative_forms": 100},
           "thorough": {"db_pairs": 2100, "custom_template_pairs": 80, "cross_template_pairs": 15, "db_pairs_unambiguous": 1500, "db_pairs_unambiguous_by_database": 1200, "pools": 1500, "pool_pairs": 3000000}}
@@ -231,24 +231,29 @@ def roundtrips(spec, rec):
     for n, en in enumerate(eds):
         if n % spec["nshards"] != spec["i"]:
             continue
-        vol, page = rng.randint(1, 999), rng.randint(1, 999)
-        c = one_case(f"{vol} {en} {page}")
-        if c is None:
-            continue
-        if not (c.matched_text() == f"{vol} {en} {page}"):
-            continue   # not the plain volume-reporter-page shape
-        t2 = c.corrected_citation()
-        c2 = one_case(t2)
-        rec.ev()
-        rec.count("roundtrips")
-        case = dict(reporter=en, text=f"{vol} {en} {page}", corrected=t2)
-        if c2 is None:
-            rec.violation("C16.normal_form_does_not_reparse", case)
-            continue
-        if not (c2 == c and hash(c2) == hash(c)):
-            rec.violation("C16.normal_form_reparses_unequal", case)
-        if c2.corrected_citation() != t2:
-            rec.violation("C16.normal_form_not_fixed_point", case, observed=c2.corrected_citation())
+        # every numeric page the plain shape accepts: ordinary, with leading zeros, zero, long
+        shapes = [("plain", str(rng.randint(1, 999))), ("leading_zero", rng.choice(["045", "007", "0100", "00"])),
+                  ("long", str(rng.randint(10 ** 6, 10 ** 9))), ("one_digit", rng.choice("0123456789"))]
+        for shape, page in shapes:
+            vol = rng.choice([rng.randint(1, 999), rng.randint(1000, 2100), 1])
+            c = one_case(f"{vol} {en} {page}")
+            if c is None:
+                continue
+            if not (c.matched_text() == f"{vol} {en} {page}"):
+                continue   # not the plain volume-reporter-page shape
+            t2 = c.corrected_citation()
+            c2 = one_case(t2)
+            rec.ev()
+            rec.count("roundtrips")
+            rec.count("roundtrip_page:" + shape)
+            case = dict(reporter=en, text=f"{vol} {en} {page}", corrected=t2)
+            if c2 is None:
+                rec.violation("C16.normal_form_does_not_reparse", case)
+                continue
+            if not (c2 == c and hash(c2) == hash(c)):
+                rec.violation("C16.normal_form_reparses_unequal", case)
+            if c2.corrected_citation() != t2:
+                rec.violation("C16.normal_form_not_fixed_point", case, observed=c2.corrected_citation())
 
 
 def pool(spec, rec, rng):
